@@ -24,8 +24,8 @@ repo, root = os.environ['C16_REPO'], os.environ['C16_ROOT']
 src = open(repo + '/pools.go').read()
 new = re.sub(r'import\s+"sync"', 'import sync "github.com/asticode/go-astits/verifsync"', src)
 new = re.sub(r'^(\s*)"sync"\s*$', r'\1sync "github.com/asticode/go-astits/verifsync"', new, flags=re.M)
-open(root + '/bin/c16/pools.go', 'w').write(new)
-json.dump({"Replace": {repo + "/pools.go": root + "/bin/c16/pools.go", repo + "/verifsync/verifsync.go": root + "/shim/verifsync.go"}}, open(root + '/bin/c16/overlay.json', 'w'))
+open(root + '/bin/c16/pools_overlay.txt', 'w').write(new)
+json.dump({"Replace": {repo + "/pools.go": root + "/bin/c16/pools_overlay.txt", repo + "/verifsync/verifsync.go": root + "/shim/verifsync.go"}}, open(root + '/bin/c16/overlay.json', 'w'))
 print("overlay: sync redirected" if new != src else "overlay: pools.go does not import sync (shim inactive)")
 PY
 if ! go build $MODFLAG -overlay bin/c16/overlay.json -tags "verif c16shim" -o bin/c16sched ./cmd/c16 2>bin/c16/build.err; then
